@@ -489,6 +489,16 @@ def tour():
         for cfg in ([], ["clone 1 0"], ["clone 8 7"], ["clone 1 0", "clone 8 7"]):
             hs.append(["reset"] + MAKERS["thin.hwl"] + REPLACEMENT + cfg + ["cb 0 thinWithArcMut " + act, "cb 0 thinWithArcMut getMut:70,cnt",
                        "cb 7 thinWithArcMut getMut:71,cnt", "conv 0 fromThin", "isUnique 0", "getMut 0 72", "tryUnique 0", "dropAll"])
+    # re-entrant user code: T::clone (run by make_mut / make_unique / unwrap_or_clone on a shared handle) uses another handle
+    for name in ("arc.sized", "offset.sized", "arc.boxed"):
+        for cfg in (["clone 1 0"], ["clone 1 0", "clone 2 0"], ["clone 1 0", "conv 1 intoRawOffset"], ["clone 1 0", "conv 1 unionFirst"], ["clone 1 0", "clone 2 0", "conv 2 intoRaw"]):
+            arc_k = not any(c.startswith("conv 1") for c in cfg)
+            for opn in (["makeMutH 0 77 1 %s"] + (["makeUniqueH 0 77 1 %s", "unwrapOrCloneH 0 1 %s"] if name != "offset.sized" else [])):
+                for act in ("drop", "cnt") + (("getmut",) if arc_k else ()):
+                    tail = ["isUnique 0", "getMut 0 78"] if name != "offset.sized" and not opn.startswith("unwrap") else []
+                    hs.append(["reset"] + MAKERS[name] + cfg + [opn % act] + tail + ["dropAll"])
+    # (sole owner: clone is not called, the hook does not run)
+    hs.append(["reset", "create 0 new 1:1", "create 1 new 2:2", "makeMutH 0 77 1 drop", "makeUniqueH 0 78 1 cnt", "unwrapOrCloneH 0 1 drop", "dropAll"])
     # arc-swap integration (RefCnt for Arc<T>): an ArcSwapAny cell as one more owner; load guards, load_full, store,
     # into_inner, interleaved with the uniqueness gates / copy-on-write of the other owners
     for cfg in ([], ["clone 1 0"], ["clone 1 0", "clone 2 0"]):
@@ -629,8 +639,12 @@ def monitor_history(ops, obs):
         for b in list(live):
             if owners(post, b) == 0 and b not in leaked_ok:
                 # C05: "when the last handle goes away ... exactly that block is returned to the allocator"
-                fails.append((i, ["C01", "C07", "C05"] if st.startswith("panic") else ["C01", "C05"],
-                              "block b%d has no owning handle left but was not released (leak)" % b))
+                tg = ["C01", "C07", "C05"] if st.startswith("panic") else ["C01", "C05"]
+                if f[0].startswith(("makeMut", "makeUnique")):
+                    tg = tg + ["C08"]      # "the previous allocation loses exactly one owner": the last one to let go releases it
+                if f[0].startswith(("unwrapOrClone", "tryUnwrap", "tryUnique", "intoInner")):
+                    tg = tg + ["C09"]
+                fails.append((i, tg, "block b%d has no owning handle left but was not released (leak)" % b))
                 leaked_ok.add(b)
         # C04: the reported count equals the number of owning handles
         for k, s in post.items():
@@ -644,6 +658,16 @@ def monitor_history(ops, obs):
                                   k, s["cnt"], owners(post, s["blk"]), s["blk"], " (after a panic in user code)" if st.startswith("panic") else "")))
         for m in re.finditer(r"cnt=([\d|]+);", o["out"]):
             pass  # in-callback counts are compared below with the pre-state
+        # user code inside T::clone saw the state BEFORE the library released / redirected anything
+        if f[0] in ("makeMutH", "makeUniqueH", "unwrapOrCloneH") and st == "ok" and "hook=" in o["out"]:
+            kk = int(f[3]) if f[0] != "unwrapOrCloneH" else int(f[2])
+            hv = o["out"].split("hook=")[1].split(";")[0]
+            if kk in pre:
+                n_k = owners(pre, pre[kk]["blk"])
+                if hv.startswith("cnt:") and hv[4:] != str(n_k):
+                    fails.append((i, ["C04", "C08" if f[0] != "unwrapOrCloneH" else "C09"], "the count read through s%d from inside T::clone (called by %s) is %s while %d owning handle(s) exist: the library released its reference before running user code" % (kk, f[0][:-1], hv[4:], n_k)))
+                if hv == "mut:some" and n_k != 1:
+                    fails.append((i, ["C03", "C08" if f[0] != "unwrapOrCloneH" else "C09"], "get_mut through s%d succeeded from inside T::clone (called by %s) while %d owning handle(s) exist" % (kk, f[0][:-1], n_k)))
         # comparison / hashing / formatting through handles: read-only, also when the payload's impl panics
         if f[0] == "cmp" and st == "ok" and len(f) == 3 and f[1].isdigit() and f[2].isdigit() and int(f[1]) in pre and int(f[2]) in pre:
             d = dict(x.split("=", 1) for x in o["out"].split(";") if "=" in x)
@@ -1089,7 +1113,8 @@ def side_by_side(harness_exe, model_exe, ops):
 
 # ------------------------------------------------------------------------------------------------
 # which model/implementation differences concern which property
-GATE_OPS = ("isUnique", "getMut", "getUnique", "tryUnique", "tryUnwrap", "makeMut", "makeUnique", "unwrapOrClone", "writeSlot", "uniqWrite")
+GATE_OPS = ("isUnique", "getMut", "getUnique", "tryUnique", "tryUnwrap", "makeMut", "makeUnique", "unwrapOrClone", "writeSlot", "uniqWrite",
+            "makeMutH", "makeUniqueH", "unwrapOrCloneH")
 RAW_CONVS = ("intoRaw", "fromRaw", "intoRawOffset", "fromRawOffset", "thinIntoRaw", "thinFromRaw", "toDyn")
 
 
@@ -1123,9 +1148,9 @@ def relevant(prop, ops, k, a, b):
     if prop == "C07":
         return panicky or f[0] == "cmp"
     if prop == "C08":
-        return f[0] in ("makeMut", "makeUnique")
+        return f[0] in ("makeMut", "makeUnique", "makeMutH", "makeUniqueH")
     if prop == "C09":
-        return f[0] in ("tryUnwrap", "tryUnique", "unwrapOrClone", "intoInner") or (f[0] == "conv" and len(f) > 2 and f[2] == "shareable")
+        return f[0] in ("tryUnwrap", "tryUnique", "unwrapOrClone", "unwrapOrCloneH", "intoInner") or (f[0] == "conv" and len(f) > 2 and f[2] == "shareable")
     if prop == "C10":
         return f[0] == "intoThin" or "thin" in ops[k].lower() or bool(kinds & {"thin", "rawThin"}) or "hwl" in tys
     if prop == "C11":
